@@ -335,11 +335,13 @@ def run(tier, seed=0, replay=None, procs=None, only=None):
     if only:
         cs = [c for c in cs if re.search(only, c.name)]
     nconf = reader_conformance()
-    rv, notes = roundtrip_checks(tier)
+
+    def late():
+        rv, notes = roundtrip_checks(tier)
+        return rv, [], dict(roundtrips=notes)
     return main_run(
-        PROP, tier, cs, functions=functions(), seed=seed, procs=procs,
-        extra_violations=rv,
-        extra_evidence=dict(reader_conformance_comparisons=nconf, roundtrips=notes),
+        PROP, tier, cs, functions=functions(), seed=seed, procs=procs, late_checks=late,
+        extra_evidence=dict(reader_conformance_comparisons=nconf),
         bounds=dict(
             offsets=f'every UTC offset in [{LO}, {HI}] minutes (covers -12:00..+14:00 with margin) as one z3 Int',
             fill='dtype in {float64, float32, int32, int16, uint8, datetime64} x symbolic presence of _FillValue in encoding / attrs',
